@@ -752,7 +752,7 @@ fn main() {
     // ---------------------------------------------------------------- C15 ADM: admission on the effective address
     if want("ADM") {
         for i in 0..(60 * scale) {
-            let proxy = match i % 6 { 0 => None, 1 | 2 => Some((true, true)), 3 => Some((true, false)), 4 => Some((false, true)), _ => Some((true, true)) };
+            let proxy = match i % 6 { 0 => None, 1 | 2 => Some((true, true)), 3 => Some((true, false)), 4 => Some((false, true)), _ => if (i / 6) % 2 == 0 { Some((false, false)) } else { Some((true, true)) } };
             let limit = 1 + r.below(3) as usize;
             // a long window (no roll inside the run) or a short one with attempts kept away from the boundaries
             let dur = if r.chance(2, 3) { 60 } else { 2 };
@@ -839,6 +839,24 @@ fn main() {
         }
     }
 
+    // one crowd case: 600 clients stalled (half silent, half inside a frame) must not delay the probe either
+    // (an accept loop that stops accepting above some number of open connections)
+    if want("STALL") {
+        let cfg = Cfg { max: 10_000, expiry: 21_600, secret: None, timeout_s: 6, lim: None, proxy: None };
+        let mut conns = vec![];
+        let mut t = 50;
+        for j in 0..600usize {
+            let beh = if j % 2 == 0 { Beh::Silent } else { Beh::MidFrame };
+            conns.push(plain(j as i64 + 1, 2 + (j % 3) as u8, t, beh, None));
+            t += 2;
+        }
+        conns.push(plain(999, 5, t + 200, Beh::Probe, Some(10)));
+        let end = t + 200 + 6000 + 600;
+        let run = run_case(0, &cfg, &conns, None, end);
+        emit("STALL", 0, &cfg, &conns, None, end, &run);
+        st.hit("STALL.crowd=600"); ncase += 1;
+    }
+
     // ---------------------------------------------------------------- C17 STOP: shutdown at every stage of 1-4 sessions
     if want("STOP") {
         for i in 0..(48 * scale) {
@@ -876,6 +894,15 @@ fn main() {
             }
             // the stop request lands anywhere between the first arrival and 3 s later
             let mut stop = 40 + r.below(3000) / 7 * 7 + 3;
+            // every second PROXY case: one cooperative connection is accepted before the stop request but
+            // completes its PROXY header only after it (in flight while still in its header)
+            if proxy_on && (i / 4) % 2 == 1 {
+                if let Some(c) = conns.iter_mut().find(|c| matches!(c.hdr, Hdr::Full { .. }) && c.beh != Beh::Silent) {
+                    if let Hdr::Full { delay, .. } = &mut c.hdr { *delay = 400; }
+                    stop = c.arrive + 200;
+                    st.hit("STOP.header_completed_after_stop");
+                }
+            }
             // never within 20 ms of an arrival: the order of the two would be a coin toss of the select!
             while conns.iter().any(|c| c.arrive.abs_diff(stop) < 20) { stop += 37; }
             // clients that arrive after the stop request
